@@ -15,6 +15,9 @@
   is needed.  Each copy is shown to be needed by a witness (`C19_fails_when_…`): the four repaired defects (markets
   shared; markets copied one by one; frame shared; nested cells shared) and the two seeded regressions
   (`get_new_order_list` without deep copy; `set_price` adopting all-Decimal frames).
+
+  Strategies whose backtest ends in an exception: `Proofs/C19/Failure.lean` (the theorems here are its special case
+  "nobody fails", `C19_without_failures_same_as_plain_manager`).
 -/
 import Demeter.Manager
 namespace Demeter
